@@ -40,8 +40,9 @@ res = dict(property=pid, applies=ok_apply, demo_on_repo_rc=d0.returncode, demo_o
 print(json.dumps(res))
 out = os.path.join(V, "seeded", name)
 os.makedirs(out, exist_ok=True)
-shutil.copy(src + "/patch.diff", out)
-shutil.copy(src + "/demo.py", out)
+if os.path.realpath(src) != os.path.realpath(out):
+    shutil.copy(src + "/patch.diff", out)
+    shutil.copy(src + "/demo.py", out)
 meta = json.load(open(src + "/meta.json")) if os.path.exists(src + "/meta.json") else {}
 meta["confirmed_by_lead"] = res
 meta["lead_ran"] = ran
